@@ -43,3 +43,57 @@ def run(ctx):
     shared(ctx, C06.run, 'R-C06', 'R-C01-4')
     from . import C03
     shared(ctx, C03.per_member_independence, 'R-C03-6', 'R-C01-5')
+    verifier_content_tests(ctx, 'R-C01-6')
+
+
+def _outside_len(sv):
+    """what is left of an operand once every len(..) is taken out"""
+    out, i = '', 0
+    while i < len(sv):
+        if sv.startswith('len(', i):
+            d, j = 1, i + 4
+            while j < len(sv) and d:
+                d += sv[j] == '('
+                d -= sv[j] == ')'
+                j += 1
+            i = j
+            continue
+        out += sv[i]
+        i += 1
+    return out
+
+
+def verifier_content_tests(ctx, RULE):
+    """The verifier core refuses on shapes (lengths against the bit length and the commitment count), on undecodable points, on the
+    helpers' own failures, and at the gate.  A comparison of its own on the *content* of a statement or proof -- the capacity of the
+    parameters, the presence of a seed, a promise, a commitment -- is a rejection no honest (statement, proof) pair may meet and none of
+    the documented refusals (those live in the constructors and in the consistency function, which have their own tables): an honest proof
+    verified under parameters of another capacity, or with a seed, must not be turned away by it."""
+    from . import msm
+    from .common import guard_table
+    rep = ctx.rep
+    core = msm.verifier_core(ctx, RULE)
+    if core is None:
+        return
+    rows = guard_table(ctx, core)
+    extra, n = [], 0
+    for r in rows:
+        if r['eff'] == 'bypass':
+            continue
+        for a in r['atoms']:
+            if a[0] not in ('cmp', 'in', 'pred', 'unknown'):
+                continue
+            ops = [x for x in a[1:] if isinstance(x, str)] + [y for x in a[1:] if isinstance(x, tuple) for y in x if isinstance(y, str)]
+            if any('vartime_mixed_multiscalar_mul' in o or 'vartime_multiscalar_mul' in o for o in ops):
+                continue                    # the gate
+            n += 1
+            rest = [_outside_len(o).replace('.generators.bp_gens.gens_capacity', '#bits').replace('.generators.pc_gens.extension_degree', '#deg') for o in ops]
+            # (`p2[..]#bits` is the bit length, a size; what remains of the statements / proofs parameters is content)
+            import re as _re
+            content = [o for o in rest if _re.search(r"(each\(p[23]\)|p[23]\[[^\]]*\])(?!#bits|#deg)", o) or 'party_capacity' in o or 'seed_nonce' in o]
+            if content:
+                extra.append((r, a))
+    rep.floor(RULE, 'comparisons of the verifier core (besides the gate)', n, 2)
+    rep.check(not extra, RULE, RULE + '/verifier/no-content-test', 'the verifier core compares lengths and sizes only (the gate aside): nothing in it turns away a statement for what it holds',
+              'the verifier core also rejects on %s: an honest proof may be refused' % ([(a, list(r['ctx'])[:2]) for r, a in extra][:2],),
+              ctx.where(core, extra[0][0]['guard'].bb) if extra else ctx.where(core))
